@@ -297,6 +297,27 @@ Proof.
   - intros k a x Hk [Wa <-]. now apply el_swap.
 Qed.
 
+(** [Machine::vec] is [MultiLane::from_lanes]; the [v_vec] fields above (the little-endian image of
+    the words, cut into registers) are the values the S4-dependent [from_lanes] code paths of
+    sse2.rs build (C13), and [j_load] is [u128x1::from_lanes] *)
+Lemma sse_u32x4_vec_is_from_lanes : forall s3 s4 l, words_ok 32 4 l ->
+  v_vec (sse_u32x4_vops s3) l = u32x4_from_lanes s4 l.
+Proof.
+  intros s3 s4 l [Hl Hf]. explode l.
+  repeat match goal with H : Forall _ (_ :: _) |- _ => inversion H; clear H; subst end.
+  cbn [sse_u32x4_vops v_vec]. symmetry. apply sse_u32x4_from_lanes_order; assumption.
+Qed.
+Lemma sse_u64x4_vec_is_from_lanes : forall s3 s4 l, words_ok 64 4 l ->
+  v_vec (sse_u64x4_vops s3) l = u64x4_from_lanes s4 l.
+Proof.
+  intros s3 s4 l [Hl Hf]. cbn [sse_u64x4_vops v_vec]. rewrite x2_unpack_words by exact Hl. explode l.
+  repeat match goal with H : Forall _ (_ :: _) |- _ => inversion H; clear H; subst end.
+  unfold u64x4_from_lanes. cbn [nth firstn skipn].
+  rewrite !sse_u64x2_from_lanes_order by assumption. reflexivity.
+Qed.
+Lemma sse_j_load_is_from_lanes : forall s3 x, j_load (sse_jops s3) x = u128x1_from_lanes [x].
+Proof. reflexivity. Qed.
+
 (** * the machine *)
 Definition sse_m (s3 : bool) : machine :=
   Machine (sse_u32x4_vops s3) (sse_u32x4x4_vops s3) (sse_u64x4_vops s3) (sse_jops s3).
